@@ -2,8 +2,8 @@
 
 package lifecycle
 
-// Full-stack world for the default engine: the real lifecycle.Service builds
-// and runs the real stream nodes over real connector.Source/Destination
+// Full-stack world for the arch-v2 engine: the real lifecycle-poc Service builds
+// and runs the real funnel workers over real connector.Source/Destination
 // instances (real Persister over a fake transactional DB); only the connector
 // PLUGINS, the pipeline/connector/processor services and the database are
 // fakes. The oracles of C03, C06, C10, C11 and C12 read the plugins' logs and
@@ -22,6 +22,7 @@ import (
 	"github.com/conduitio/conduit/pkg/connector"
 	"github.com/conduitio/conduit/pkg/foundation/cerrors"
 	"github.com/conduitio/conduit/pkg/foundation/log"
+	lifecyclev1 "github.com/conduitio/conduit/pkg/lifecycle"
 	"github.com/conduitio/conduit/pkg/pipeline"
 	connectorPlugin "github.com/conduitio/conduit/pkg/plugin/connector"
 	"github.com/conduitio/conduit/pkg/processor"
@@ -264,8 +265,10 @@ func (w *lWorld) storedIdxLocked() int {
 }
 
 func (w *lWorld) handledLocked(i int) bool {
-	if d := w.dests["pl-dlq"]; d != nil && d.acked[i] {
-		return true
+	for _, d := range w.dests {
+		if d.isDLQ && d.acked[i] {
+			return true
+		}
 	}
 	for _, id := range w.destOrder {
 		if !w.dests[id].acked[i] {
@@ -475,7 +478,7 @@ type lCfg struct {
 	stopAfter int
 	dlqSize   int
 	dlqTh     int
-	recovery  ErrRecoveryCfg
+	recovery  lifecyclev1.ErrRecoveryCfg
 }
 
 func newLifecycleWorld(c lCfg) (*lWorld, *Service) {
@@ -504,7 +507,7 @@ func newLifecycleWorld(c lCfg) (*lWorld, *Service) {
 		DLQ: pipeline.DLQ{Plugin: "fake-dlq", WindowSize: c.dlqSize, WindowNackThreshold: c.dlqTh}}
 	w.pl.SetStatus(pipeline.StatusUserStopped)
 	rec := c.recovery
-	svc := NewService(log.Nop(), &rec, lConnectorService{w}, lProcessorService{}, lPluginService{w}, lPipelineService{w})
+	svc := NewService(log.Nop(), &rec, lConnectorService{w}, lProcessorService{}, lPluginService{w}, lPipelineService{w}, true)
 	svc.OnFailure(func(e FailureEvent) {
 		w.mu.Lock()
 		w.failures = append(w.failures, e)
